@@ -3,6 +3,7 @@
 From Coq Require Import List Arith Bool.
 Import ListNotations.
 From KV Require Import Model.Kfac Proofs.KfacP.
+From KV Require Import Model.Placement Model.Coll Model.KfacComm Proofs.KfacCommP.
 
 (* saving does not change the state and captures steps, the constant intervals and the factors *)
 Theorem save_is_read_only : forall cfg cks s incl,
@@ -52,8 +53,34 @@ Example checkpoint_example :
   inv s' = Some {| s_a := FVer 0 [(0,1);(1,1);(2,1)]; s_g := FVer 0 [(0,1);(1,1);(2,1)]; s_step := 3 |}.
 Proof. vm_compute. repeat split. Qed.
 
+(* what a load communicates (Model/KfacComm.v, event CInvLoad; tied to the code by C03's exact-log comparison):
+   rank r issues only broadcasts, only on the gradient-worker column of a layer it is a gradient worker of, rooted at
+   that layer's inverse worker of A or G; nothing at all when no inverses are broadcast (k = 1), and a save or a load
+   without factors / without compute_inverses issues nothing *)
+Theorem load_comm_guarded : forall c cap ls r bs i,
+  In i (snd (cstep c cap ls (Some r) bs CInvLoad)) ->
+  ikind i = 2 /\ exists l, In l ls /\ is_gw c r l = true /\ igrp i = g_col c (pcol c l) /\
+                          (iroot i = S (wa l) \/ iroot i = S (wg l)).
+Proof.
+  intros c cap ls r bs i. cbn [cstep snd]. unfold inv_rank. destruct (bcast_inv c); [|intros []].
+  intros Hi. apply in_flat_map in Hi as (l & Hl & Hi). destruct (is_gw c r l) eqn:Eg; [|destruct Hi].
+  unfold inv_layer in Hi. apply in_map_iff in Hi as ((n & root) & <- & Hm). cbn [fst snd bc ikind igrp iroot].
+  split; [reflexivity|]. exists l. repeat split; try assumption.
+  unfold inv_msgs in Hm. destruct (pmeth c); cbn in Hm; intuition (try congruence); match goal with H : (_, _) = (_, _) |- _ => inversion H; subst; auto end.
+Qed.
+
+Theorem load_comm_none_mem_opt : forall c cap ls r bs, pk c = 1 -> snd (cstep c cap ls (Some r) bs CInvLoad) = [].
+Proof. intros c cap ls r bs Hk. cbn [cstep snd]. unfold inv_rank, bcast_inv. rewrite Hk. reflexivity. Qed.
+
+Theorem save_and_plain_load_are_silent : forall hook incl ck acts,
+  cev_of hook (Save incl) acts = [] /\ (has_inv acts = false -> cev_of hook (Load ck false) acts = []).
+Proof. intros. split; [reflexivity|]. intros H. cbn [cev_of]. now rewrite H. Qed.
+
 Print Assumptions save_is_read_only.
 Print Assumptions save_load_restores.
 Print Assumptions resume_equivalent_same_data.
 Print Assumptions resume_equivalent_next_refresh.
 Print Assumptions resume_recomputed.
+Print Assumptions load_comm_guarded.
+Print Assumptions load_comm_none_mem_opt.
+Print Assumptions save_and_plain_load_are_silent.
